@@ -347,6 +347,188 @@ Proof.
   destruct (event_fields_survive _ _ _ _ _ _ _ _ He Hj) as (d & Hd & Hv). unfold line_view. rewrite Hd, Hv. reflexivity.
 Qed.
 
+(* ---------------------------------------------------------------- ANY scalar field of ANY event dict *)
+(* (review 2, finding 2) is_event above speaks of events that carry a text 'message' and integer number / level.  An event
+   logged with format= has NO 'message' key (log.py _msg: `if "format" in event: pass`), a level may be a float, a number
+   any object.  What the three stages really preserve is every member of the event dict whose value is a JSON scalar --
+   None, a bool, a float, text, an integer below 2^64 -- under whatever text key it sits: the number, the level, the
+   message, the format string, every named argument of that kind.  A member whose value needed the fallback encoder (an
+   object, bytes, a set: ExtendedEncoder.default; a non-text key, a cycle: _make_jsonable; depth / huge integers:
+   _last_resort) reads back as its replacement record or text, NOT as the value: the text format_message renders from
+   the read-back event then shows the replacement where the emitted event showed str(value) (ex_format_arg_replaced).
+   (floats: json's round trip of a float is taken as the identity, like the rest of CPython's json; NaN != NaN.) *)
+Inductive stable : pv -> jv -> Prop :=
+| stable_int n : small_int n -> stable (PInt n) (JInt n)
+| stable_str m : stable (PStr m) (JStr m)
+| stable_bool b : stable (PBool b) (JBool b)
+| stable_none : stable PNone JNull
+| stable_float f : stable (PFloat f) (JFloat f).
+
+(* an event dict as log.msg builds it: a dict of its own (not the wrapper / header records) with text keys (kwargs) *)
+Definition is_event_dict (e : pv) (kv : list (pkey * pv)) : Prop :=
+  exists id, e = PDict id kv /\ id <> WRAP_ID /\ id <> HDR_ID /\ id <> HDR2_ID /\ text_keys kv.
+
+Definition dict_field (e : pv) (s : Z) (v : pv) : Prop := exists id kv, e = PDict id kv /\ pfield s kv = Some v.
+
+Lemma dumps_stable L ext mk d v j0 j : stable v j0 -> dumps L ext mk d v = Ok j -> j = j0.
+Proof.
+  intros [n Hn|m|b| |f] H; [apply dumps_int in H; exact H | | | |]; cbn [dumps] in H; inversion H; reflexivity.
+Qed.
+
+Lemma mj_stable L seen d v j0 : stable v j0 -> mj L seen d v = Ok v.
+Proof. intros []; reflexivity. Qed.
+
+Lemma lr_stable dd env v j0 : stable v j0 -> lr dd env v = v.
+Proof.
+  intros [n Hn|m|b| |f]; [apply lr_small_int; exact Hn | apply lr_text | | |];
+    destruct dd; cbn [lr resolve]; match goal with |- context [isinst ?t ?l] => destruct (isinst t l) eqn:E end;
+    try reflexivity; vm_compute in E; discriminate.
+Qed.
+
+Lemma dumps_field_view L ext mk d e s v j0 j : stable v j0 -> dict_field e s v -> dumps L ext mk d e = Ok j -> jfield s j = Some j0.
+Proof.
+  intros Hs (id & kv & -> & Hp) H. destruct (dumps_field _ _ _ _ _ _ _ _ _ H Hp) as (jf & H1 & ->).
+  rewrite (dumps_stable _ _ _ _ _ _ _ Hs H1). reflexivity.
+Qed.
+
+Lemma mj_field L seen d e s v j0 o2 : stable v j0 -> dict_field e s v -> (forall id kv, e = PDict id kv -> memZ id seen = false) ->
+  mj L seen d e = Ok o2 -> dict_field o2 s v.
+Proof.
+  intros Hs (id & kv & -> & Hp) Hseen H.
+  destruct (mj_dict _ _ _ _ _ _ (Hseen id kv eq_refl) H) as (kv' & -> & _ & F).
+  destruct (F _ _ Hp) as (v' & E1 & P1). rewrite (mj_stable _ _ _ _ _ Hs) in E1. inversion E1; subst v'.
+  exists id, kv'. split; [reflexivity | exact P1].
+Qed.
+
+Lemma lr_field dd env e s v j0 : stable v j0 -> dict_field e s v -> dict_field (lr (S dd) env e) s v.
+Proof.
+  intros Hs (id & kv & -> & Hp). rewrite lr_dict. eexists id, _. split; [reflexivity|].
+  rewrite (pfield_map_lr _ _ _ _ Hp), (lr_stable _ _ _ _ Hs). reflexivity.
+Qed.
+
+Lemma event_dict_field e kv s v : is_event_dict e kv -> pfield s kv = Some v -> dict_field e s v.
+Proof. intros (id & -> & _) Hp. exists id, kv. split; [reflexivity | exact Hp]. Qed.
+
+Lemma event_dict_not_seen e kv (seen : list Z) : is_event_dict e kv -> (forall x, In x seen -> x = WRAP_ID \/ x = HDR_ID \/ x = HDR2_ID) ->
+  forall id kv', e = PDict id kv' -> memZ id seen = false.
+Proof.
+  intros (id & -> & N1 & N2 & N3 & _) Hseen id' kv' E. inversion E; subst id' kv'.
+  unfold memZ. destruct (existsb (Z.eqb id) seen) eqn:X; [|reflexivity].
+  apply existsb_exists in X. destruct X as (x & Hx & Hq). apply Z.eqb_eq in Hq. subst x.
+  destruct (Hseen id Hx) as [K|[K|K]]; contradiction.
+Qed.
+
+(* whichever stage produced the line of an event: the member reads back as the same scalar *)
+Theorem event_field_survives L from rx e kv s v j0 j :
+  is_event_dict e kv -> pfield s kv = Some v -> stable v j0 -> serialize L (wrap from rx e) = Ok j ->
+  exists d, event_of_line j = Some d /\ jfield s d = Some j0.
+Proof.
+  intros He Hp Hs. pose proof (event_dict_field e kv s v He Hp) as Hd0. unfold serialize, serialize_st, event_of_line.
+  destruct (stage1 L (wrap from rx e)) as [j1|e1] eqn:E1.
+  - intros H; inversion H; subst j1. unfold stage1, wrap in E1.
+    destruct (dumps_field _ _ _ _ _ _ _ _ _ E1 (pfield_wrap_d from rx e)) as (jd & Hd & ->).
+    exists jd. split; [reflexivity|]. eapply dumps_field_view; eassumption.
+  - destruct ((2 <=? ser_stages) && catches ser_catch1 e1); [|discriminate].
+    destruct (stage2 L (wrap from rx e)) as [j2|e2] eqn:E2.
+    + intros H; inversion H; subst j2. unfold stage2, bind, wrap in E2.
+      destruct (mj L [] 0 (PDict WRAP_ID [(KStr K_from, from); (KStr K_rx_time, rx); (KStr K_d, e)])) as [o2|] eqn:Em; [|discriminate].
+      destruct (mj_dict L [] 0 _ _ _ (eq_refl : memZ _ [] = false) Em) as (kv' & -> & _ & F).
+      destruct (F _ _ (pfield_wrap_d from rx e)) as (e' & Me & Pe).
+      assert (He' : dict_field e' s v).
+      { eapply mj_field; [exact Hs | exact Hd0 | | exact Me]. apply (event_dict_not_seen e kv [WRAP_ID] He).
+        intros x [<-|[]]. left; reflexivity. }
+      destruct (dumps_field _ _ _ _ _ _ _ _ _ E2 Pe) as (jd & Hd & ->).
+      exists jd. split; [reflexivity|]. eapply dumps_field_view; eassumption.
+    + destruct ((3 <=? ser_stages) && catches ser_catch2 e2); [|discriminate].
+      destruct (stage3 L (wrap from rx e)) as [j3|e3] eqn:E3; [|discriminate].
+      intros H; inversion H; subst j3. unfold stage3, wrap in E3.
+      destruct (Z.to_nat lr_default_depth) as [|[|dd]] eqn:Ed; [vm_compute in Ed; discriminate ..|].
+      rewrite lr_dict in E3.
+      destruct (dumps_field _ _ _ _ _ _ _ _ _ E3 (pfield_map_lr K_d _ _ _ (pfield_wrap_d from rx e))) as (jd & Hd & ->).
+      exists jd. split; [reflexivity|]. eapply dumps_field_view; [exact Hs| |exact Hd]. eapply lr_field; eassumption.
+Qed.
+
+(* the same for the trigger inside the header line of an incident file *)
+Theorem trigger_field_survives L ty more e kv s v j0 j :
+  is_event_dict e kv -> pfield s kv = Some v -> stable v j0 -> serialize L (header ty e more) = Ok j ->
+  exists d, trigger_of_header j = Some d /\ jfield s d = Some j0.
+Proof.
+  intros He Hp Hs. pose proof (event_dict_field e kv s v He Hp) as Hd0. unfold serialize, serialize_st, trigger_of_header.
+  destruct (stage1 L (header ty e more)) as [j1|e1] eqn:E1.
+  - intros H; inversion H; subst j1. unfold stage1, header in E1.
+    destruct (dumps_field _ _ _ _ _ _ _ K_header _ E1 eq_refl) as (jh & Hj & ->).
+    destruct (dumps_field _ _ _ _ _ _ _ _ _ Hj (pfield_hdr ty e more)) as (jd & Hd & ->).
+    exists jd. split; [reflexivity|]. eapply dumps_field_view; eassumption.
+  - destruct ((2 <=? ser_stages) && catches ser_catch1 e1); [|discriminate].
+    destruct (stage2 L (header ty e more)) as [j2|e2] eqn:E2.
+    + intros H; inversion H; subst j2. unfold stage2, bind, header in E2.
+      match type of E2 with match ?m with _ => _ end = _ => destruct m as [o2|] eqn:Em; [|discriminate] end.
+      destruct (mj_dict L [] 0 _ _ _ (eq_refl : memZ _ [] = false) Em) as (kv' & -> & _ & F).
+      destruct (F K_header _ eq_refl) as (h' & Mh & Ph).
+      destruct (mj_dict L [HDR_ID] 1 HDR2_ID _ _ eq_refl Mh) as (kv2 & -> & _ & F2).
+      destruct (F2 _ _ (pfield_hdr ty e more)) as (e' & Me & Pe).
+      assert (He' : dict_field e' s v).
+      { eapply mj_field; [exact Hs | exact Hd0 | | exact Me]. apply (event_dict_not_seen e kv [HDR2_ID; HDR_ID] He).
+        intros x [<-|[<-|[]]]; [right; right; reflexivity | right; left; reflexivity]. }
+      destruct (dumps_field _ _ _ _ _ _ _ _ _ E2 Ph) as (jh & Hj & ->).
+      destruct (dumps_field _ _ _ _ _ _ _ _ _ Hj Pe) as (jd & Hd & ->).
+      exists jd. split; [reflexivity|]. eapply dumps_field_view; eassumption.
+    + destruct ((3 <=? ser_stages) && catches ser_catch2 e2); [|discriminate].
+      destruct (stage3 L (header ty e more)) as [j3|e3] eqn:E3; [|discriminate].
+      intros H; inversion H; subst j3. unfold stage3, header in E3.
+      destruct (Z.to_nat lr_default_depth) as [|[|[|dd]]] eqn:Ed; [vm_compute in Ed; discriminate ..|].
+      rewrite lr_dict in E3.
+      assert (P0 : pfield K_header [(KStr K_header, PDict HDR2_ID ((KStr K_type, ty) :: (KStr K_trigger, e) :: more))]
+                   = Some (PDict HDR2_ID ((KStr K_type, ty) :: (KStr K_trigger, e) :: more))) by reflexivity.
+      destruct (dumps_field _ _ _ _ _ _ _ K_header _ E3 (pfield_map_lr K_header _ _ _ P0)) as (jh & Hj & ->).
+      rewrite lr_dict in Hj.
+      destruct (dumps_field _ _ _ _ _ _ _ _ _ Hj (pfield_map_lr K_trigger _ _ _ (pfield_hdr ty e more))) as (jd & Hd & ->).
+      exists jd. split; [reflexivity|]. eapply dumps_field_view; [exact Hs| |exact Hd]. eapply lr_field; eassumption.
+Qed.
+
+(* a format event: number, level, format string and every scalar named argument read back *)
+Definition K_format : Z := 10.
+
+Definition is_format_event (e : pv) (n l f : pv) (args : list (Z * pv)) : Prop :=
+  exists kv, is_event_dict e kv /\ pfield K_num kv = Some n /\ pfield K_level kv = Some l /\ pfield K_format kv = Some f /\
+             pfield K_message kv = None /\ Forall (fun a => pfield (fst a) kv = Some (snd a)) args.
+
+Theorem format_event_fields_survive L from rx e n l f args jn jl jf j :
+  is_format_event e n l f args -> stable n jn -> stable l jl -> stable f jf ->
+  serialize L (wrap from rx e) = Ok j ->
+  exists d, event_of_line j = Some d /\ jfield K_num d = Some jn /\ jfield K_level d = Some jl /\ jfield K_format d = Some jf /\
+            Forall (fun a => forall ja, stable (snd a) ja -> jfield (fst a) d = Some ja) args.
+Proof.
+  intros (kv & He & Hn & Hl & Hf & _ & Ha) Sn Sl Sf H.
+  destruct (event_field_survives L from rx e kv _ _ _ j He Hn Sn H) as (d & Hd & Jn).
+  destruct (event_field_survives L from rx e kv _ _ _ j He Hl Sl H) as (d2 & Hd2 & Jl).
+  destruct (event_field_survives L from rx e kv _ _ _ j He Hf Sf H) as (d3 & Hd3 & Jf).
+  rewrite Hd in Hd2, Hd3. inversion Hd2; inversion Hd3; subst d2 d3.
+  exists d. split; [exact Hd|]. split; [exact Jn|]. split; [exact Jl|]. split; [exact Jf|].
+  rewrite Forall_forall in Ha |- *. intros a Hin ja Sa.
+  destruct (event_field_survives L from rx e kv _ _ _ j He (Ha a Hin) Sa H) as (d4 & Hd4 & Ja).
+  rewrite Hd in Hd4. inversion Hd4; subst d4. exact Ja.
+Qed.
+
+(* ---------------------------------------------------------------- whole files, LINE BY LINE *)
+(* (review 2, finding 3) file_reads_back above needs is_event of EVERY line.  The per-line form: whatever the file holds,
+   no write raises, there is exactly one line per event in order, and each line whose event satisfies the hypothesis
+   reads back -- an odd event elsewhere in the file (a format event, a non-integer number) takes nothing away *)
+Definition line_ok (e : pv) (j : jv) : Prop :=
+  (forall n l m, is_event e n l m -> line_view j = Some (fields n l m)) /\
+  (forall kv s v j0, is_event_dict e kv -> pfield s kv = Some v -> stable v j0 ->
+     exists d, event_of_line j = Some d /\ jfield s d = Some j0).
+
+Theorem file_lines_read_back L from rx (evs : list pv) : lims_ok L ->
+  exists js, write_lines L from rx evs = Some js /\ Forall2 line_ok evs js.
+Proof.
+  intros HL. induction evs as [|e t (js & W & F)]; [exists []; split; [reflexivity | constructor]|].
+  cbn [write_lines]. destruct (serialize_total L (wrap from rx e) HL) as [j Hj]. rewrite Hj, W.
+  exists (j :: js). split; [reflexivity|]. constructor; [|exact F]. split.
+  - intros n l m He. destruct (event_fields_survive _ _ _ _ _ _ _ _ He Hj) as (d & Hd & Hv). unfold line_view. rewrite Hd, Hv. reflexivity.
+  - intros kv s v j0 He Hp Hs. eapply event_field_survives; eassumption.
+Qed.
+
 (* ---------------------------------------------------------------- examples (non-vacuity, and what each stage is for) *)
 Definition ev0 (x : pv) : pv := PDict 10 [(KStr K_num, PInt 7); (KStr K_level, PInt 30); (KStr K_message, PStr 100); (KStr 101, x)].
 
@@ -373,3 +555,26 @@ Example ex_huge_num_lost :
   exists j d, serialize cpython (wrap (PStr 50) (PFloat 51) e) = Ok j /\ event_of_line j = Some d /\
               view3 d = (Some (JFixed FValPlace), Some (JInt 30), Some (JStr 100)).
 Proof. eexists _, _. vm_compute. repeat split. Qed.
+
+(* a format event (no 'message'), float level, named arguments: one scalar, one object that needs the fallback encoder *)
+Definition fev : pv := PDict 10 [(KStr K_num, PInt 7); (KStr K_level, PFloat 29); (KStr K_format, PStr 100); (KStr 101, PInt 5);
+                                 (KStr 102, POpaque OReprOk 60)].
+
+Example ex_is_format_event : is_format_event fev (PInt 7) (PFloat 29) (PStr 100) [(101, PInt 5); (102, POpaque OReprOk 60)].
+Proof.
+  eexists. split; [exists 10; split; [reflexivity|]; repeat (split; [discriminate|]); repeat constructor; eexists; reflexivity|].
+  repeat split; repeat constructor.
+Qed.
+
+(* ... whose object argument reads back as the replacement record, so `%(x)s` renders differently after read-back *)
+Example ex_format_arg_replaced :
+  exists j d, serialize cpython (wrap (PStr 50) (PFloat 51) fev) = Ok j /\ event_of_line j = Some d /\
+              jfield 101 d = Some (JInt 5) /\ jfield K_message d = None /\
+              jfield 102 d = Some (JObj [(KFixed FAt, JFixed FUnJSONable); (KFixed FMessage, JFixed FText); (KFixed FRepr, JDerived DRepr 60)]).
+Proof. eexists _, _. vm_compute. repeat split. Qed.
+
+(* one odd line (a non-integer number: not an is_event) between two ordinary ones: the others still read back *)
+Example ex_odd_line_between :
+  exists js, write_lines cpython (PStr 50) (PFloat 51) [ev0 PNone; PDict 11 [(KStr K_num, PStr 77); (KStr K_level, PInt 20); (KStr K_message, PStr 100)]; ev0 (PBool true)] = Some js /\
+             map line_view js = [Some (fields 7 30 100); Some (Some (JStr 77), Some (JInt 20), Some (JStr 100)); Some (fields 7 30 100)].
+Proof. eexists. vm_compute. split; reflexivity. Qed.
